@@ -65,6 +65,17 @@ pub fn advance_to(t: u64) {
     }
 }
 
+/// jump to the earliest timer in the future; false if there is none
+pub fn advance_next() -> bool {
+    match next_timer() {
+        Some(t) => {
+            advance_to(t);
+            true
+        }
+        None => false,
+    }
+}
+
 /// earliest registered timer strictly in the future
 fn next_timer() -> Option<u64> {
     let c = clock();
@@ -146,6 +157,9 @@ impl CountWaker {
     }
     pub fn take(&self) -> bool {
         self.flag.swap(false, Ordering::SeqCst)
+    }
+    pub fn wake_flag(&self) {
+        self.flag.store(true, Ordering::SeqCst);
     }
     pub fn wakes(&self) -> usize {
         self.count.load(Ordering::SeqCst)
